@@ -1,6 +1,6 @@
 (* the generated tables meet every table-condition Record of layer L2 *)
 From stdpp Require Import list numbers option.
-From L2 Require Import Model Base Own Jobs Wake WakeInv Term GenTables ZeroInv.
+From L2 Require Import Model Base Own Jobs Wake WakeInv Term GenTables ZeroInv Facts.
 From Gen Require Import Tables.
 
 Lemma gen_own_cond : own_cond gen_ftables.
@@ -68,3 +68,12 @@ Proof.
     destruct (f0 =? f) eqn:E; inversion H. right; right. exists f0. split; [|done]. by apply Nat.eqb_neq in E.
 Qed.
 Print Assumptions gen_zero_cond.
+
+(* the order facts read from the source are the ones the model is written with: every theorem about [run gen_ftables] is a theorem
+   about the model with the facts of the source, [runF gen_ffacts gen_ftables] *)
+Lemma gen_ffacts_code : gen_ffacts = code_ffacts.
+Proof. reflexivity. Qed.
+Lemma runF_gen s tr : runF gen_ffacts gen_ftables s tr = run gen_ftables s tr.
+Proof. rewrite gen_ffacts_code. apply runF_code. Qed.
+Print Assumptions gen_ffacts_code.
+Print Assumptions runF_gen.
